@@ -294,8 +294,9 @@ class ComposedNode(ConfigNode):
 
             if other.ayns.delete:
                 removed = set()
-                def maybe_keep(path, node):
-                    other_node = other.ayns.get_first_not_missing_node(path)
+                prefix_len = len(path)
+                def maybe_keep(child_path, node):
+                    other_node = other.ayns.get_first_not_missing_node(child_path[prefix_len:])
                     return node.ayns.has_priority_over(other_node)
 
                 self.ayns.filter_nodes(maybe_keep, prefix=path, removed=removed)
